@@ -151,7 +151,7 @@ def run_tlc(module, cfg=None, env=None, workers=None, timeout=1100, simulate=Non
     meta = os.path.join(OUT, "tlc-%s-%d" % (tag, os.getpid()))
     shutil.rmtree(meta, ignore_errors=True)
     cfg = cfg or (module + ".cfg")
-    jopts = ["-XX:+UseParallelGC", "-Xmx" + heap]
+    jopts = ["-XX:+UseParallelGC", "-Xss128m", "-Xmx" + heap]
     if dfs:
         jopts.append("-Dtlc2.tool.queue.IStateQueue=StateDeque")
     cmd = ["java"] + jopts + ["-cp", TLA_JAR + ":/opt/veriftools/tla/CommunityModules-deps.jar", "tlc2.TLC",
